@@ -735,7 +735,11 @@ func (l *List) CombineN(sta funcGen.Stack[Value]) (*List, error) {
 		}
 		return NewListFromIterable(func(st funcGen.Stack[Value]) iterator.Producer[Value] {
 			return iterator.CombineN[Value, Value](l.iterable(st), int(n), func(i0 int, i []Value) (Value, error) {
-				st.Push(NewList(i...))
+				// i is a ring buffer which is reused by the iterator, the oldest item is found at i0
+				items := make([]Value, 0, len(i))
+				items = append(items, i[i0:]...)
+				items = append(items, i[:i0]...)
+				st.Push(NewList(items...))
 				return f.Func(st.CreateFrame(1), nil)
 			})
 		}), nil
